@@ -24,6 +24,10 @@ impl Full {
 
 /// d(k, i u j) = ai d(k,i) + aj d(k,j) + beta d(i,j) + gamma |d(k,i) - d(k,j)|
 pub fn lw(method: u8, dki: f64, dkj: f64, dij: f64, ni: f64, nj: f64, nk: f64) -> f64 {
+    // single / complete: the Lance-Williams coefficients (1/2, 1/2, 0, -+1/2) are min / max; computed
+    // as such so that the reference does not overflow on entries next to the largest finite value
+    if method == 0 { return dki.min(dkj); }
+    if method == 1 { return dki.max(dkj); }
     let (ai, aj, beta, gamma) = match method {
         0 => (0.5, 0.5, 0.0, -0.5),
         1 => (0.5, 0.5, 0.0, 0.5),
